@@ -28,7 +28,7 @@ fn spec(t: Tier) -> Spec {
     Spec {
         id: "C05",
         level: "model_checking",
-        rule: format!("default mode: every string of <= {a} symbols over {{space,tab,newline,',\",\\,a,b,é,à}} is read by the real WhitespaceDelimitedArgumentReader (hook H1) in one read() and compared with the reference tokenizer (bytes and line-end flags); every string of <= {b} symbols is read under EVERY composition of its bytes into read() results (incl. 1-byte reads, cuts inside é, inside quotes, after a backslash) and must give the single-read answer; buffer edge: 'a'*k ++ s for every 4090 <= k+|s| <= 4100 and every s of <= {c} symbols with 0, 1 and 2 extra cuts at every position within +-4 of 4096; EINTR injected before each read (must be retried), EIO (must propagate). -0 / -d x / -d '\\n': strings <= {d} over {{a,b,NUL,x,newline,',\",\\,space,0xFF,é}} in one read, <= {e} under every chunking, and 'a'*k ++ s around the BufReader's 8192 edge. state = (bytes consumed, reader's pending/escape state) explored through every environment schedule; transitions = read() answers. Binary slice: strings <= 3 piped into the xargs binary byte-by-byte and in one write."),
+        rule: format!("default mode: every string of <= {a} symbols over {{space,tab,newline,',\",\\,a,b,é,à}} is read by the real WhitespaceDelimitedArgumentReader (hook H1) in one read() and compared with the reference tokenizer (bytes and line-end flags); every string of <= {b} symbols is read under EVERY composition of its bytes into read() results (incl. 1-byte reads, cuts inside é, inside quotes, after a backslash) and must give the single-read answer; buffer edge: 'a'*k ++ s for every 4090 <= k+|s| <= 4100 and every s of <= {c} symbols with 0, 1 and 2 extra cuts at every position within +-4 of 4096; EINTR injected before each read (must be retried), EIO (must propagate). -0 / -d x / -d '\\n': strings <= {d} over {{a,b,NUL,x,newline,',\",\\,space,0xFF,é}} in one read, <= {e} under every chunking, and 'a'*k ++ s around the BufReader's 8192 edge. state = (bytes consumed, reader's pending/escape state) explored through every environment schedule; transitions = read() answers. Scale slice: three streams of 20-40 KB (arguments of cycling lengths incl. 5000 and 9000 bytes, a 6000-byte quoted argument with blanks, tabs and single quotes, backslash-newline, é/à, a run of 4097 blanks / 8193 delimiters) in one read(), in equal chunks of 1, 7, 4095..4097, 8191..8193 bytes and with each of the first 24 refills shifted by one byte. Binary slice: strings <= 3 piped into the xargs binary byte-by-byte and in one write."),
         bound: json!({"single_read_len": a, "all_chunkings_len": b, "edge_suffix_len": c, "byte_mode_len": d, "byte_mode_chunk_len": e}),
         assumptions: vec![
             "set aside (run for determinism only): strings ending in a lone unquoted backslash, a newline inside quotes, CR/VT/FF".into(),
@@ -443,9 +443,117 @@ fn run(ctx: &mut Ctx) {
             }
         }
     }
+    scale_slice(ctx, &reads, &mut states);
     ctx.rep.states = states;
     ctx.rep.transitions = reads.get();
     binary_slice(ctx);
+}
+
+/// Streams of tens of kilobytes (several buffer refills): arguments of cycling lengths with one of
+/// 5000 and one of 9000 bytes (longer than the 4096-byte buffer), a quoted argument of 6000 bytes
+/// holding blanks, tabs and single quotes, a backslash-newline pair, é/à, runs of 3 and of 4097 separators.
+/// Read in one read(), and in equal chunks of 1, 7, 4095, 4096, 4097, 8191, 8192 and 8193 bytes,
+/// and with each of the first 24 refill positions shifted by one byte; default mode against the
+/// reference tokenizer, -0 and -d ',' against the reference split.
+fn scale_slice(ctx: &mut Ctx, reads: &std::rc::Rc<std::cell::Cell<u64>>, states: &mut u64) {
+    let mut ws: Vec<u8> = vec![];
+    for i in 0..1500usize {
+        let len = match i {
+            40 => 5000,
+            700 => 9000,
+            _ => 1 + (i * 5) % 23,
+        };
+        if i == 300 {
+            ws.push(b'"');
+            for j in 0..6000usize {
+                ws.push(match j % 97 {
+                    13 => b' ',
+                    29 => b'\t',
+                    51 => b'\'',
+                    _ => b'q',
+                });
+            }
+            ws.push(b'"');
+        } else if i % 37 == 5 {
+            ws.extend_from_slice("\u{e9}\u{e0}".as_bytes());
+        } else if i % 41 == 7 {
+            ws.extend_from_slice(b"x\\\ny");
+        } else {
+            ws.extend(std::iter::repeat(b'a' + (i % 26) as u8).take(len));
+        }
+        let sep: &[u8] = match i % 9 {
+            0 => b"\n",
+            1 => b" \n",
+            2 => b"\t",
+            3 => b"   ",
+            _ => b" ",
+        };
+        ws.extend_from_slice(sep);
+        if i == 900 {
+            ws.extend(std::iter::repeat(b' ').take(4097));
+        }
+    }
+    let mut by: Vec<u8> = vec![];
+    for i in 0..1500usize {
+        let len = match i {
+            40 => 5000,
+            700 => 9000,
+            _ => (i * 5) % 23,
+        };
+        by.extend((0..len).map(|j| match j % 13 {
+            3 => b' ',
+            5 => b'\'',
+            7 => b'\n',
+            9 => 0xff,
+            _ => b'a' + (i % 26) as u8,
+        }));
+        by.push(0);
+        if i == 900 {
+            by.extend(std::iter::repeat(0u8).take(8193));
+        }
+    }
+    if matches!(tokenize(&ws), Tokens::Unjudged(_)) {
+        ctx.rep.machinery("scale slice: the reference tokenizer does not judge the long stream".into());
+    }
+    let by_comma: Vec<u8> = by.iter().map(|&b| if b == 0 { b',' } else { b }).collect();
+    let cases: [(ReaderKind2, &Vec<u8>); 3] = [(ReaderKind2::Ws, &ws), (ReaderKind2::Byte(0), &by), (ReaderKind2::Byte(b','), &by_comma)];
+    let mut job = 0u64;
+    for (kind, data) in cases {
+        let mut schedules: Vec<Vec<usize>> = vec![vec![]];
+        for c in [1usize, 7, 4095, 4096, 4097, 8191, 8192, 8193] {
+            schedules.push(vec![c; data.len() / c + 1]);
+        }
+        for k in 0..24usize {
+            for (base, delta) in [(4096usize, -1i64), (4096, 1), (8192, -1), (8192, 1)] {
+                let mut v = vec![base; data.len() / base + 1];
+                if k < v.len() {
+                    v[k] = (base as i64 + delta) as usize;
+                    schedules.push(v);
+                }
+            }
+        }
+        let one = run_reader(&kind, data, &[], None, None, reads);
+        for sched in schedules {
+            job += 1;
+            if job % ctx.nshards != ctx.shard {
+                continue;
+            }
+            let got = run_reader(&kind, data, &sched, None, None, reads);
+            ctx.rep.evaluations += 1;
+            ctx.rep.nontrivial += 1;
+            ctx.rep.count("scale_schedules", 1);
+            *states += sched.len() as u64;
+            let j = match kind {
+                ReaderKind2::Ws => judge_ws(data, &got),
+                ReaderKind2::Byte(d) => judge_byte(data, d, &got),
+            };
+            if let Some((sig, detail)) = j {
+                ctx.rep.violation(&format!("{sig} (long stream)"), short_detail(&detail), case_json(kind, data, &sched, None));
+            } else if got != one {
+                ctx.rep.violation("C05 result depends on how the stream is cut into read() chunks (long stream)", format!("{} vs {}", tail(&one), tail(&got)), case_json(kind, data, &sched, None));
+            }
+        }
+    }
 }
 
 fn tail(t: &Toks) -> String {
